@@ -58,6 +58,12 @@ func parseJSONPointer(ptr string) (segments []string, err error) {
 	if strings.Contains(ptr, "~") {
 		// Undo the simple escaping rules that allow one to include a slash in a segment.
 		for i := range segments {
+			// RFC 6901 section 3: "~" must be followed by "0" or "1".
+			for j, seg := 0, segments[i]; j < len(seg); j++ {
+				if seg[j] == '~' && (j+1 == len(seg) || (seg[j+1] != '0' && seg[j+1] != '1')) {
+					return nil, fmt.Errorf("JSON Pointer %q has an invalid escape in segment %q", ptr, seg)
+				}
+			}
 			segments[i] = unescapeJSONPointerSegment(segments[i])
 		}
 	}
